@@ -65,6 +65,24 @@ CHECKS["C06"] = dict(
    note="Trusted: Coq kernel+vm_compute; hand transcription; python symbol parsers (C prototypes, extern blocks, wasm.<sym>, Dart symbol:, JNA interfaces); "
         "nm; gen/Tables.v translator.",
    design="§5 C06")
+CHECKS["C01"] = dict(
+   text="Proof (type-level) + end-to-end transport: Abi/Model.v gives, for every parameter/return shape of the documented grammar, the C type the "
+        "header declares and the representation class the macro compiles; C01_prim_abi / C01_capi_rows (re-checked against tables regenerated from "
+        "fmt_primitive_as_c, the derived-name function and capi.h.jinja on every run), C01_param_abi_* (declared C type means the macro's FFI type for "
+        "primitives, enums, structs, options in both spellings, slices, strings, opaque pointers, write). Tied to the code by generated bridges built "
+        "with the real macro and called through the generated header by a compiled C driver: every call must enter Rust once with bit-identical "
+        "arguments and return bit-identical values; prototypes, result typedefs and struct layouts (C and rustc) are compared with the model in Coq.",
+   note="Partial in one respect: value transport relies on rustc and gcc implementing one C ABI for equal repr(C) types (trusted, exercised by the runs). "
+        "Trusted: Coq kernel+vm_compute, hand transcription in Abi/Model.v, gen/tablegen.py, header parser, generators.",
+   design="§5 C01")
+CHECKS["C10"] = dict(
+   text="Proof + end-to-end: C10_spelling_irrelevant (std Option and DiplomatOption give the same C declaration and representation for every payload), "
+        "C10_unit_arm_no_payload, C10_flag_after_payload ({payload, is_ok}), C10_pointer_options (absent optional pointer = NULL, no flag). Tied to the "
+        "code by paired-spelling methods for every payload kind in parameter and return position plus random optional/fallible methods, built with the "
+        "real macro and driven through the generated C header (both arms, unit arms, stale payload in None), declarations compared textually and with "
+        "the model in Coq; runtime conversions themselves are covered by C03.",
+   note="Trusted: as C01; the C compiler's union layout (SysV ABI).",
+   design="§5 C10")
 NOT_YET = {
 }
 ALL = [f"C{i:02d}" for i in range(1, 18)]
